@@ -375,7 +375,8 @@ def observers(real, model):
     return None
 
 
-CLASH_ALL = set(CLASH) | {"as_flat", "get_sorted_keys", "get_value_and_parent"}
+PRIVATE = ["_parse_key", "_get_kwargs", "__dict__", "__class__"]  # Namespace's own (inherited) non-public attribute names are names like any other too
+CLASH_ALL = set(CLASH) | {"as_flat", "get_sorted_keys", "get_value_and_parent"} | set(PRIVATE)
 
 
 def run_history(ctx, hist, observe_all=True):
@@ -454,14 +455,14 @@ def strategies():
     from hypothesis import strategies as st
 
     seg = st.one_of(st.sampled_from(ORD), st.sampled_from(ORD), st.sampled_from(CLASH),
-                    st.sampled_from(["as_flat", "get_sorted_keys", "d", "d"]))
+                    st.sampled_from(["as_flat", "get_sorted_keys", "d", "d"]), st.sampled_from(PRIVATE))
     key = st.lists(seg, min_size=1, max_size=3).map(".".join)
     bad_key = st.sampled_from(["a b", "a..b", ".a", "a.", "", " "])
     scalar = st.one_of(st.integers(-3, 3), st.sampled_from(["v", "", None, True, 1.5]))
     leafv = st.one_of(scalar, scalar, st.lists(scalar, max_size=2), st.tuples(scalar), st.tuples(scalar, st.lists(scalar, max_size=1)),
                       st.dictionaries(st.sampled_from(["k", "j", "items", "a"]), scalar, max_size=2),
                       st.just({"k": {"j": 2}}), st.lists(st.dictionaries(st.just("k"), scalar, max_size=1), max_size=2))
-    name = st.one_of(st.sampled_from(ORD), st.sampled_from(CLASH))
+    name = st.one_of(st.sampled_from(ORD), st.sampled_from(ORD), st.sampled_from(CLASH), st.sampled_from(CLASH), st.sampled_from(PRIVATE))
     nsv = st.recursive(st.dictionaries(name, leafv, max_size=3).map(lambda d: {"$ns": d}),
                        lambda inner: st.dictionaries(name, st.one_of(leafv, inner), max_size=3).map(lambda d: {"$ns": d}), max_leaves=6)
     anyv = st.one_of(leafv, leafv, nsv)
